@@ -6,9 +6,9 @@ CONSTANTS
   Shape <- MC_Shape
   BlockInfo <- MC_BlockInfo
   LogNames <- MC_LogNames
-  TraceSteps <- MC_Trace1
+  TraceSteps <- MC_Trace2
   FuncBodies <- MC_FuncBodies
-  MaxHist = 8
+  MaxHist = 7
   AsFound_VarListCached = FALSE
   AsFound_TraceBreaksFunctions = FALSE
   Hyp_IdResetPerModel = FALSE
